@@ -137,14 +137,14 @@ impl MemcStore {
                     })
                     .map(|mut value: u64| {
                         if increment {
-                            value += delta.delta;
+                            value = value.wrapping_add(delta.delta);
                         } else if delta.delta > value {
                             value = 0;
                         } else {
                             value -= delta.delta;
                         }
                         record.value = Bytes::from(value.to_string());
-                        record.header = header;
+                        record.header.cas = header.cas;
                         self.set(key, record).map(|result| DeltaResult {
                             cas: result.cas,
                             value,
